@@ -173,7 +173,7 @@ pub struct Sim {
     pub main: usize,
 }
 
-fn key(r: &Reg) -> (Vec<u8>, bool) {
+pub fn key(r: &Reg) -> (Vec<u8>, bool) {
     (r.script.as_slice().to_vec(), r.stype == SType::Type)
 }
 
@@ -192,8 +192,8 @@ impl Sim {
         }
     }
 
-    /// set_scripts through the real RPC + model update (README semantics).
-    pub fn set_scripts(&mut self, cmd: u8, specs: &[RegSpec]) {
+    /// The model after a set_scripts call (README semantics), without calling anything.
+    pub fn model_after(&self, cmd: u8, specs: &[RegSpec]) -> (Vec<Reg>, BTreeMap<(Vec<u8>, bool), Reg>) {
         let tip = self.w.chains[self.main].tip();
         let regs: Vec<Reg> = specs
             .iter()
@@ -202,6 +202,31 @@ impl Sim {
                 Reg { script, stype, start: spec_start(s, tip) }
             })
             .collect();
+        let mut model = self.regs.clone();
+        match cmd % 3 {
+            0 => {
+                model.clear();
+                for r in regs.iter().cloned() {
+                    model.insert(key(&r), r);
+                }
+            }
+            1 => {
+                for r in regs.iter().cloned() {
+                    model.insert(key(&r), r);
+                }
+            }
+            _ => {
+                for r in regs.iter() {
+                    model.remove(&key(r));
+                }
+            }
+        }
+        (regs, model)
+    }
+
+    /// set_scripts through the real RPC + model update (README semantics).
+    pub fn set_scripts(&mut self, cmd: u8, specs: &[RegSpec]) {
+        let (regs, model) = self.model_after(cmd, specs);
         let pending = self.w.storage().get_earliest_matched_blocks().is_some();
         self.set_scripts_calls += 1;
         if pending {
@@ -214,24 +239,7 @@ impl Sim {
         };
         let list: Vec<_> = regs.iter().map(|r| r.rpc_status()).collect();
         self.w.filter_rpc().set_scripts(list, Some(command)).expect("set_scripts");
-        match cmd % 3 {
-            0 => {
-                self.regs.clear();
-                for r in regs {
-                    self.regs.insert(key(&r), r);
-                }
-            }
-            1 => {
-                for r in regs {
-                    self.regs.insert(key(&r), r);
-                }
-            }
-            _ => {
-                for r in regs {
-                    self.regs.remove(&key(&r));
-                }
-            }
-        }
+        self.regs = model;
     }
 
     pub fn all_tx_hashes(&self) -> Vec<(u64, packed::Byte32)> {
